@@ -355,7 +355,7 @@ def make_model(desc):
 
 def histories(tier):
     from ..history import bfs
-    return bfs(RegistryHistories(), 3 if tier == "thorough" else 2, budget_s=1500 if tier == "thorough" else 120)
+    return bfs(RegistryHistories(), 3 if tier == "thorough" else 2, budget_s=1500 if tier == "thorough" else 1200)
 
 
 PARTS = [
